@@ -51,11 +51,11 @@ Ltac step_cases H :=
       [ destruct (s_thr s t) eqn:Et; try discriminate H
       | destruct (s_thr s t) as [ | k | | | | ] eqn:Et; try discriminate H;
         destruct (s_group s k) as [l|] eqn:Eg
-      | destruct (s_thr s t) as [ | | k | | | ] eqn:Et; try discriminate H
+      | destruct (s_thr s t) as [ | | k | | | ] eqn:Et; try discriminate H; destruct r as [?|?]
       | destruct (s_thr s t) as [ | | | k r | | ] eqn:Et; try discriminate H
       | destruct (s_thr s t) as [ | | | | k l | ] eqn:Et; try discriminate H;
         destruct (s_done s l) as [r|] eqn:Ed; try discriminate H ];
-      inversion H; subst s'; clear H; cbn [s_def s_cache s_group s_done s_thr s_calls s_time s_started s_began s_doneat s_res] in *
+      inversion H; subst s'; clear H; cbn [s_def s_cache s_group s_done s_thr s_calls s_time s_started s_began s_endat s_doneat s_res] in *
   end.
 
 Ltac upd :=
@@ -69,49 +69,177 @@ Ltac upd :=
 
 (* ------------------------------------------------------------ the invariant *)
 
-(* t owns the in-flight call of key k *)
+(* t owns the in-flight call of key k: it is executing fn, or fn has returned
+   and the call has not yet been removed from the group *)
 Definition owner (s : state) (t : tid) (k : key) : Prop :=
   s_thr s t = Leading k \/ exists r, s_thr s t = Finishing k r.
 
-(* t's fn has returned (it is past the execution) *)
-Definition past_fn (ts : tstate) : Prop :=
-  match ts with Finishing _ _ | Ret _ _ _ _ => True | _ => False end.
+(* l has created a call (an execution of fn) for key k, now or in the past *)
+Definition led (s : state) (l : tid) (k : key) : Prop :=
+  s_thr s l = Leading k \/ (exists r, s_thr s l = Finishing k r) \/ (exists r, s_thr s l = Ret k r l false).
 
 Record Inv (s : state) : Prop := mkInv {
   (* the group map and the thread states agree *)
   inv_group_owner : forall k l, s_group s k = Some l -> owner s l k;
   inv_owner_group : forall t k, owner s t k -> s_group s k = Some t;
-  (* what fn returned is recorded exactly for threads past fn *)
-  inv_res_past : forall t r, s_res s t = Some r -> past_fn (s_thr s t);
-  inv_fin_res : forall t k r, s_thr s t = Finishing k r -> s_res s t = Some r;
-  (* a published call result: the leader has returned it, stamps set *)
-  inv_done : forall l r, s_done s l = Some r ->
-      s_res s l = Some r /\ (exists k, s_thr s l = Ret k r l false) /\ exists d, s_doneat s l = Some d;
-  inv_doneat : forall l d, s_doneat s l = Some d -> exists r, s_done s l = Some r;
-  (* stamps are in the past *)
-  inv_started : forall t, (s_started s t <= s_time s)%nat;
-  (* a joiner waits for a call of its own key that was in flight when it started *)
+  (* what fn returned is recorded exactly for the threads that executed it to the end *)
+  inv_res : forall t r, s_res s t = Some r ->
+      (exists k, s_thr s t = Finishing k r) \/ (exists k, s_thr s t = Ret k r t false);
+  (* a published call result / a removal stamp: the leader has returned *)
+  inv_done : forall l r, s_done s l = Some r -> exists k, s_thr s l = Ret k r l false;
+  inv_doneat : forall l d, s_doneat s l = Some d -> exists k r, s_thr s l = Ret k r l false;
+  (* stamps are in the past and ordered *)
+  inv_started : forall t, s_thr s t <> Idle -> (s_started s t < s_time s)%nat;
+  inv_leading : forall t k, s_thr s t = Leading k -> (s_started s t < s_began s t < s_time s)%nat;
+  inv_finishing : forall t k r, s_thr s t = Finishing k r ->
+      s_res s t = Some r /\ (s_started s t < s_began s t < s_endat s t)%nat /\ (s_endat s t < s_time s)%nat;
+  (* a joiner waits for a call of its own key, led by another thread, that had
+     not been removed from the group when the joiner started *)
   inv_joined : forall t k l, s_thr s t = Joined k l ->
-      thr_key (s_thr s l) = Some k /\
-      (s_doneat s l = None \/ exists d, s_doneat s l = Some d /\ (s_started s t <= d)%nat);
+      l <> t /\ led s l k /\ (s_began s l < s_time s)%nat /\
+      forall d, s_doneat s l = Some d -> (s_started s t < d)%nat;
   (* the cache holds only successful results of executions of that key *)
   inv_cache : forall k v e l, s_cache s k = Some (v, e, l) ->
       s_res s l = Some (RVal v) /\ thr_key (s_thr s l) = Some k;
   (* provenance of every returned result *)
   inv_ret : forall t k r src cached, s_thr s t = Ret k r src cached ->
       s_res s src = Some r /\ thr_key (s_thr s src) = Some k /\
-      (cached = true -> exists v, r = RVal v) /\
-      (cached = false -> exists d, s_doneat s src = Some d /\ (s_started s t <= d)%nat)
+      (s_began s src < s_endat s src < s_time s)%nat /\
+      (cached = true -> src <> t /\ (exists v, r = RVal v) /\ (s_endat s src < s_started s t)%nat) /\
+      (cached = false -> s_done s src = Some r /\
+          exists d, s_doneat s src = Some d /\ (s_endat s src < d < s_time s)%nat /\
+                    (s_started s t < d)%nat /\ (src = t -> (s_started s t < s_began s t)%nat))
 }.
 
 Lemma inv_init : forall def, Inv (init def).
 Proof.
-  intros def. constructor; cbn; intros; try discriminate; try lia.
+  intros def. constructor; unfold owner, led; cbn; intros; try discriminate; try lia; try congruence.
   destruct H as [H|[r H]]; discriminate.
 Qed.
 
-Lemma owner_cases : forall s t k, owner s t k -> thr_key (s_thr s t) = Some k /\ ~ (s_thr s t = Idle).
-Proof. intros s t k [H|[r H]]; rewrite H; split; cbn; congruence. Qed.
+Lemma inv_leading_group : forall s, Inv s -> forall t k, s_thr s t = Leading k -> s_group s k = Some t.
+Proof. intros s HI t k H. apply (inv_owner_group _ HI). now left. Qed.
+
+Lemma inv_finishing_group : forall s, Inv s -> forall t k r, s_thr s t = Finishing k r -> s_group s k = Some t.
+Proof. intros s HI t k r H. apply (inv_owner_group _ HI). right. eauto. Qed.
+
+Lemma inv_started_of : forall s, Inv s -> forall t x, s_thr s t = x -> x <> Idle -> (s_started s t < s_time s)%nat.
+Proof. intros s HI t x H Hx. apply (inv_started _ HI). congruence. Qed.
+
+(* --- automation: saturate the context with the consequences of Inv s --- *)
+
+Definition Mark (P : Prop) : Prop := P.
+
+Ltac learn H :=
+  let T := type of H in
+  lazymatch goal with
+  | _ : Mark T |- _ => fail
+  | _ => let N := fresh "Lm" in let N2 := fresh "Lf" in
+         pose proof (H : Mark T) as N; pose proof H as N2
+  end.
+
+Ltac sat1 HI :=
+  match goal with
+  | H : s_thr _ _ = Ret _ _ _ _ |- _ => learn (inv_ret _ HI _ _ _ _ _ H)
+  | H : s_thr _ _ = Joined _ _ |- _ => learn (inv_joined _ HI _ _ _ H)
+  | H : s_thr _ _ = Finishing _ _ |- _ => learn (inv_finishing _ HI _ _ _ H)
+  | H : s_thr _ _ = Leading _ |- _ => learn (inv_leading _ HI _ _ H)
+  | H : s_thr _ _ = Leading _ |- _ => learn (inv_leading_group _ HI _ _ H)
+  | H : s_thr _ _ = Finishing _ _ |- _ => learn (inv_finishing_group _ HI _ _ _ H)
+  | H : s_cache _ _ = Some (_, _, _) |- _ => learn (inv_cache _ HI _ _ _ _ H)
+  | H : s_res _ _ = Some _ |- _ => learn (inv_res _ HI _ _ H)
+  | H : s_done _ _ = Some _ |- _ => learn (inv_done _ HI _ _ H)
+  | H : s_doneat _ _ = Some _ |- _ => learn (inv_doneat _ HI _ _ H)
+  | H : s_group _ _ = Some _ |- _ => learn (inv_group_owner _ HI _ _ H)
+  | H : s_thr _ _ <> Idle |- _ => learn (inv_started _ HI _ H)
+  | H : s_thr _ _ = ?x |- _ =>
+      lazymatch x with Idle => fail | _ => learn (inv_started_of _ HI _ _ H ltac:(discriminate)) end
+  end.
+
+Lemma cache_get_some : forall s k now v l, cache_get s k now = Some (v, l) ->
+  exists e, s_cache s k = Some (v, e, l) /\ live now e = true.
+Proof.
+  unfold cache_get. intros s k now v l H. destruct (s_cache s k) as [[[v0 e0] l0]|]; [|discriminate].
+  destruct (live now e0) eqn:E; [|discriminate]. inversion H; subst. eauto.
+Qed.
+
+Lemma cache_get_none : forall s k now, cache_get s k now = None ->
+  s_cache s k = None \/ exists v e l, s_cache s k = Some (v, e, l) /\ live now e = false.
+Proof.
+  unfold cache_get. intros s k now H. destruct (s_cache s k) as [[[v0 e0] l0]|]; [|now left].
+  destruct (live now e0) eqn:E; [discriminate|]. right. eauto.
+Qed.
+
+Ltac cg := repeat match goal with
+  | H : context [match cache_get ?s ?k ?n with Some _ => _ | None => _ end] |- _ =>
+      destruct (cache_get s k n) as [[? ?]|] eqn:?
+  | |- context [match cache_get ?s ?k ?n with Some _ => _ | None => _ end] =>
+      destruct (cache_get s k n) as [[? ?]|] eqn:?
+  end.
+
+Ltac break1 :=
+  match goal with
+  | H : owner _ _ _ |- _ => unfold owner in H
+  | H : led _ _ _ |- _ => unfold led in H
+  | H : cache_get _ _ _ = Some _ |- _ => apply cache_get_some in H
+  | H : _ /\ _ |- _ => destruct H
+  | H : exists _, _ |- _ => destruct H
+  | H : _ \/ _ |- _ => destruct H
+  | H : true = true -> _ |- _ => specialize (H eq_refl)
+  | H : false = false -> _ |- _ => specialize (H eq_refl)
+  | H : true = false -> _ |- _ => clear H
+  | H : false = true -> _ |- _ => clear H
+  | H : Some _ = Some _ |- _ => inversion H; subst; clear H
+  | H : Some _ = None |- _ => discriminate H
+  | H : None = Some _ |- _ => discriminate H
+  | H : ?a = ?b |- _ =>
+      lazymatch type of a with tstate => idtac end;
+      lazymatch a with s_thr _ _ => fail | _ => idtac end;
+      lazymatch b with s_thr _ _ => fail | _ => idtac end;
+      first [ discriminate H | progress (inversion H; subst; clear H) ]
+  | H : thr_key ?x = Some _, E : ?x = _ |- _ => rewrite E in H; cbn [thr_key] in H
+  | H : ?x = ?a, H' : ?x = ?b |- _ =>
+      lazymatch x with s_thr _ _ => idtac end;
+      first [ rewrite H in H'; discriminate H'
+            | progress (rewrite H in H'; inversion H'; subst; clear H') ]
+  end.
+
+Ltac sat HI := unfold owner, led in *; repeat first [ break1 | sat1 HI ].
+
+Ltac rwthr := repeat match goal with E : s_thr ?s ?t = _ |- context [s_thr ?s ?t] => rewrite E end.
+Ltac fin0 := subst; unfold tick in *; rwthr; cbn [thr_key] in *; repeat split; intros; eauto; try congruence; try lia.
+Ltac fin := fin0; try solve [left; fin0 | right; fin0 | right; left; fin0 | right; right; fin0 | eexists; fin0 | eexists; eexists; fin0].
+
+(* one goal per clause and transition: unfold, split on the transition, saturate with Inv s *)
+Ltac go HI H :=
+  unfold owner, led in *; step_cases H; cg; upd; sat HI; repeat split; intros; sat HI; fin.
+
+(* clause 1: the invariant is preserved by every step of every thread *)
+Lemma inv_step : forall s a s', Inv s -> step s a = Some s' -> Inv s'.
+Proof.
+  intros s a s' HI H. constructor.
+  - intros kk ll Hg. go HI H.
+  - intros tt kk Ho. go HI H.
+  - intros tt rr Hr. go HI H.
+  - intros ll rr Hd. go HI H.
+  - intros ll dd Hd. go HI H.
+  - intros tt Hn. go HI H.
+  - intros tt kk Hl. go HI H.
+  - intros tt kk rr Hf. go HI H.
+  - intros tt kk ll Hj. go HI H.
+  - intros kk vv ee ll Hc. go HI H.
+  - intros tt kk rr src cc Hr. destruct cc; go HI H.
+Qed.
+
+Lemma inv_reachable : forall s, reachable s -> Inv s.
+Proof. apply reachable_ind; [apply inv_init|]. intros s a s' HI H. eapply inv_step; eauto. Qed.
+
+Lemma inv_run : forall tr s s', Inv s -> run s tr = Some s' -> Inv s'.
+Proof.
+  induction tr as [|a tr IH]; intros s s' HI H; cbn in H.
+  - now inversion H; subst.
+  - destruct (step s a) as [s1|] eqn:E; [|discriminate]. eapply IH; [|exact H]. eapply inv_step; eauto.
+Qed.
 
 (* thread keys never change *)
 Lemma step_thr_key : forall s a s' t k,
